@@ -156,13 +156,23 @@ func gen(items []item, out string) {
 		write := func(suffix, header string) {
 			name := fmt.Sprintf("e%d_%s.go", it.ID, suffix)
 			fn := fmt.Sprintf("E%d%s", it.ID, suffix)
-			must(os.WriteFile(filepath.Join(dir, name), []byte(header+"\n"+body(pkg, fn, it.ID)), 0o644))
+			must(os.WriteFile(filepath.Join(dir, name), []byte(header+body(pkg, fn, it.ID)), 0o644))
 			r.Files = append(r.Files, name)
 		}
-		write("gb", "//go:build "+x.String()+"\n")
+		// Layout of the header.  gofmt puts a blank line after the constraint, but a //go:build line is
+		// honoured by the go tool without one, directly above the package clause or above the package's
+		// doc comment (a // +build line is not: it needs the blank line).
+		switch it.ID % 4 {
+		case 2:
+			write("gb", "//go:build "+x.String()+"\n")
+		case 3:
+			write("gb", "//go:build "+x.String()+"\n// Package "+pkg+" holds rendered build-constraint cases.\n")
+		default:
+			write("gb", "//go:build "+x.String()+"\n\n")
+		}
 		if lines, err := constraint.PlusBuildLines(x); err == nil {
-			write("pb", strings.Join(lines, "\n")+"\n")
-			write("both", "//go:build "+x.String()+"\n"+strings.Join(lines, "\n")+"\n")
+			write("pb", strings.Join(lines, "\n")+"\n\n")
+			write("both", "//go:build "+x.String()+"\n"+strings.Join(lines, "\n")+"\n\n")
 		}
 		index = append(index, r)
 	}
